@@ -18,8 +18,9 @@ TV, DELTA_REL, REL = 1e-4, 1e-4, 1e-3
 
 def _build(args):
     from ..cert1d import build_record
-    tid, fam, fn, tv, drel, rel, parts, tables = args
-    r = build_record(tid, fam, fn, tv, drel, rel, parts, tables)
+    tid, fam, fn, tv, drel, rel, parts, tables = args[:8]
+    kw = args[8] if len(args) > 8 else {}
+    r = build_record(tid, fam, fn, tv, drel, rel, parts, tables, **kw)
     return r
 
 
